@@ -11,15 +11,16 @@ int main(int argc, char **argv)
   vrt::parse_args(argc, argv);
   bool const th = vrt::thorough();
   int const maxn = th ? 4 : 3;
-  std::vector<int> const sk_quick{c02::SK_EPSILON, c02::SK_SPACE, c02::SK_LIT_SPACE};
-  std::vector<int> const sk_all{c02::SK_EPSILON, c02::SK_SPACE, c02::SK_CS_SPACE, c02::SK_LIT_SPACE, c02::SK_REP_LIT, c02::SK_SEQ_LIT_LIT};
+  // quick tier: every skipper for grammars of up to 2 nodes, five of them for 3 nodes
+  std::vector<int> const sk_mid{c02::SK_EPSILON, c02::SK_SPACE, c02::SK_LIT_SPACE, c02::SK_CS_SPACE, c02::SK_REP_SEQ};
+  std::vector<int> const sk_all{c02::SK_EPSILON, c02::SK_SPACE, c02::SK_CS_SPACE, c02::SK_LIT_SPACE, c02::SK_REP_LIT, c02::SK_SEQ_LIT_LIT, c02::SK_REP_SEQ, c02::SK_SEQ_CS_LIT, c02::SK_REP_CS};
   for (int n = 1; n <= maxn; ++n)
   {
     std::size_t const parts = n <= 2 ? 1 : (n == 3 ? 8 : 32);
     for (std::size_t p = 0; p < parts; ++p)
       vrt::shard("char/nodes" + std::to_string(n) + "/" + std::to_string(p), [=] {
         auto const by = c02::all_by_size(n);
-        c02::run_block<char>("parse<char>", by[static_cast<std::size_t>(n)], p, parts, th ? sk_all : sk_quick, th ? 5 : 4, th ? 4 : 3, n <= (th ? 3 : 2));
+        c02::run_block<char>("parse<char>", by[static_cast<std::size_t>(n)], p, parts, (th || n <= 2) ? sk_all : sk_mid, th ? 5 : 4, th ? 4 : 3, n <= (th ? 3 : 2));
       }, 120);
   }
   c02::register_wchar(th);
